@@ -552,8 +552,22 @@ def tconnect_cases(ctx, w):
 ADVERTISE = [None, "gss", "unknown"]
 ADVERTISE_NAMES = {None: None, "gss": ["gss-group14-sha1-toWM5Slw5Ew8Mqkay+al2g==", "gss-gex-sha1-toWM5Slw5Ew8Mqkay+al2g=="],
                    "unknown": ["frobnicate-kex@example.com"]}
+MIXED_HOST = "Host17.Example.COM"
+
+
+def make_strategy(w):
+    """the `auth_strategy=` entry point of SSHClient.connect: one password source"""
+    from paramiko.auth_strategy import AuthStrategy, Password
+
+    class OnePassword(AuthStrategy):
+        def get_sources(self):
+            yield Password(username=USER, password_getter=lambda: PASSWORD)
+
+    return OnePassword(ssh_config=None)
+
+
 KNOWN = ["none", "same", "other-same-type", "other-type-only", "hashed-same", "hashed-other",
-         "same-under-other-name", "same+other-type", "hashed-other-type-only"]
+         "same-under-other-name", "same+other-type", "hashed-other-type-only", "same-under-lowercased-name"]
 MISMATCH = ("other-same-type", "other-type-only", "hashed-other", "hashed-other-type-only")
 POLICIES = ["reject", "autoadd", "warning", "custom-raise", "custom-accept"]
 
@@ -581,8 +595,23 @@ def cconnect_cases(ctx, w):
                                                          (c[0] in MISMATCH and c[2] in ("warning", "custom-accept")))]
         rest = [c for c in combos if c not in must]
         combos = must + ctx.rng.sample(rest, 24) + combos_adv
+    # alternative entry point (auth_strategy=) and host names with upper-case letters
+    base_combos = [c + ("password-arg", "host17") for c in combos]
+    alt = []
+    for entry, host in (("auth-strategy", "host17"), ("password-arg", MIXED_HOST), ("auth-strategy", MIXED_HOST)):
+        for k in KNOWN:
+            for pol in POLICIES:
+                for port in (22, 2222):
+                    alt.append((k, "user", pol, port, None, entry, host))
+    if ctx.thorough:
+        combos = base_combos + alt
+    else:
+        keep = [c for c in alt if (c[0] in MISMATCH and c[2] in ("autoadd", "reject") and c[3] == 22) or
+                (c[0] == "none" and c[2] in ("reject", "autoadd") and c[3] == 22) or
+                (c[0] in ("same", "hashed-same", "same-under-lowercased-name") and c[2] in ("reject", "autoadd"))]
+        combos = base_combos + keep
     kid = {"rsa": (1, 5), "rsa2": (1, 6), "ed": (2, 7)}
-    for known, where, pol, port, adv in combos:
+    for known, where, pol, port, adv, entry, host in combos:
         s = Session(w, advertise=ADVERTISE_NAMES.get(adv))
         calls, accepted = [], []
 
@@ -601,9 +630,12 @@ def cconnect_cases(ctx, w):
                   "warning": lambda: rec(p.WarningPolicy),
                   "custom-raise": lambda: rec(p.MissingHostKeyPolicy, False),
                   "custom-accept": lambda: rec(p.MissingHostKeyPolicy, True)}[pol]()
-        name = "host17" if port == 22 else "[host17]:%d" % port
-        other = "[host17]:%d" % port if port == 22 else "host17"
-        ids = {"host17": 1, "[host17]:2222": 2, "[host17]:22": 3}
+        name = host if port == 22 else "[%s]:%d" % (host, port)
+        other = "[%s]:%d" % (host, port) if port == 22 else host
+        # C41's name abstraction: equal strings <-> equal ids (host names are case-sensitive strings)
+        ids = {host: 1, "[%s]:%d" % (host, port): 2}
+        if name.lower() not in ids:
+            ids[name.lower()] = 4
         entries = []          # (hostname string, key label)
         if known == "same":
             entries = [(name, "rsa")]
@@ -619,6 +651,8 @@ def cconnect_cases(ctx, w):
             entries = [(HostKeys.hash_host(name), "ed")]
         elif known == "same-under-other-name":
             entries = [(other, "rsa")]
+        elif known == "same-under-lowercased-name":
+            entries = [(name.lower(), "rsa")]
         elif known == "same+other-type":
             entries = [(name, "ed"), (name, "rsa")]
         keys = {"rsa": w.rsa, "rsa2": w.rsa2, "ed": w.ed}
@@ -639,8 +673,12 @@ def cconnect_cases(ctx, w):
             def go():
                 with warnings.catch_warnings():
                     warnings.simplefilter("ignore")
-                    c.connect("host17", port=port, username=USER, password=PASSWORD, sock=s.csock,
-                              allow_agent=False, look_for_keys=False, transport_factory=factory, timeout=15)
+                    if entry == "auth-strategy":
+                        c.connect(host, port=port, sock=s.csock, transport_factory=factory, timeout=15,
+                                  auth_strategy=make_strategy(w))
+                    else:
+                        c.connect(host, port=port, username=USER, password=PASSWORD, sock=s.csock,
+                                  allow_agent=False, look_for_keys=False, transport_factory=factory, timeout=15)
 
             st, v = with_watchdog(go, 25)
             kex_ok = bool(s.tc.initial_kex_done)
@@ -675,13 +713,13 @@ def cconnect_cases(ctx, w):
             sysm, usrm = (st_model, "[]") if where == "system" else ("[]", st_model)
             polm = {"reject": "PReject", "autoadd": "PAutoAdd", "warning": "PWarning",
                     "custom-raise": "(PCustom false)", "custom-accept": "(PCustom true)"}[pol]
-            bracket = ids["[host17]:%d" % port]
+            bracket = ids["[%s]:%d" % (host, port)]
             neg_gss = bool(s.tc.c17_kex and str(s.tc.c17_kex).startswith("gss"))      # what was NEGOTIATED
             adv_gss = any(str(x).startswith("gss-") for x in s.tc.c17_peer_kex)          # what the peer ADVERTISED
             text = "(%s, (%s, %s), (1, %d, %d), %s, (%s, %s, %s), (1, 5))" % (
                 coq(hm), sysm, usrm, bracket, port, polm, coq(neg_gss), coq(adv_gss), coq(kex_ok))
-            case = {"known_hosts": known, "where": where, "policy": pol, "port": port,
-                    "server_advertises_kex": ADVERTISE_NAMES.get(adv), "negotiated_kex": s.tc.c17_kex}
+            case = {"known_hosts": known, "where": where, "policy": pol, "port": port, "entry_point": entry,
+                    "hostname": host, "server_advertises_kex": ADVERTISE_NAMES.get(adv), "negotiated_kex": s.tc.c17_kex}
             if adv and kex_ok and (adv_gss != (adv == "gss")):
                 ctx.fail("harness-advertised-kex-not-seen", "the server's extra kex names did not reach the client",
                          case=case, observed=list(s.tc.c17_peer_kex))
@@ -694,11 +732,13 @@ def cconnect_cases(ctx, w):
                          "(SSHClient.connect skips host key checking on this flag)", case=case,
                          expected=neg_gss, observed=bool(s.tc.gss_kex_used))
             rows.append((case, text, impl))
-            ctx.count(("cconnect", known, where, pol, port, adv), nontrivial=True,
-                      kind="sshclient-" + known + ("+adv-" + adv if adv else ""))
+            ctx.count(("cconnect", known, where, pol, port, adv, entry, host), nontrivial=True,
+                      kind="sshclient-" + known + ("+adv-" + adv if adv else "") +
+                      ("+strategy" if entry == "auth-strategy" else "") + ("+mixedcase" if host != "host17" else ""))
             # ---- oracle ----
-            has_entry = bool(entries) and known != "same-under-other-name"
-            key_matches = known in ("same", "hashed-same", "same+other-type")
+            # an entry is "for this host" when stored under exactly the looked-up name, or a hash of it
+            has_entry = any(hn == name or hn.startswith("|1|") for hn, _ in entries)
+            key_matches = has_entry and known in ("same", "hashed-same", "same+other-type", "same-under-lowercased-name")
             if has_entry and not key_matches:
                 if auth_sent or s.srv.seen or st == "ok":
                     ctx.fail("sshclient-auth-despite-known-key-mismatch",
@@ -752,7 +792,7 @@ def run(ctx):
                 "injecting NEWKEYS / SERVICE_ACCEPT / USERAUTH_SUCCESS / IGNORE / unknown before or after KEXINIT "
                 "(quick: seeded 60 % sample) or after the handshake, or signing other data; Transport.connect over "
                 "hostkey argument {none, same, other same type, other types} x bad signature x credential; "
-                "SSHClient.connect(sock=) over 9 known_hosts contents x {user, system} x 5 policies x {22, 2222} "
+                "SSHClient.connect(sock=), through password= and through auth_strategy=, host names in lower and mixed case, over 10 known_hosts contents x {user, system} x 5 policies x {22, 2222} "
                 "(quick: all Reject/AutoAdd user cases, every stored-key mismatch x accepting policy, + 24 sampled + 14 with a server advertising gss-X / unknown kex names; thorough: all 180, all 180 again with a gss-advertising server, 40 with an unknown name).  Every case is a distinct "
                 "script and reaches the guard / gating / comparison code, hence non-trivial.")
     ctx.trusted += ["model coq/Model/C17.v is hand-written; tied to transport.py / client.py / auth_handler.py by "
